@@ -154,6 +154,104 @@ def spell(n):
             out["els"] = None
             out["canon"] = "let-else-err"
             return out
+    if k == "MethodCall" and n.get("method") in ("unwrap_or", "unwrap_or_else", "ok_or", "ok_or_else") and len(n.get("args", [])) == 1:
+        # `b.then(|| X).unwrap_or(D)` / `b.then_some(X).ok_or_else(|| E)`: the Option built from a bool is a two-way branch
+        r = tir.strip(n["recv"])
+        if r.get("k") == "MethodCall" and r.get("method") in ("then", "then_some") and len(r.get("args", [])) == 1 and (r["recv"].get("ty") or "").lstrip("&") == "bool" \
+                and (r.get("path") or "").startswith(("std::bool", "core::bool", "bool::")):
+            x = tir.strip(r["args"][0])
+            lazy_x = r["method"] == "then"
+            if lazy_x and x.get("k") == "Closure" and not x.get("params"):
+                xv = x["body"]
+            elif not lazy_x and pure_expr(r["args"][0]):
+                xv = r["args"][0]
+            else:
+                xv = None
+            d = tir.strip(n["args"][0])
+            lazy_d = n["method"].endswith("_else")
+            if lazy_d and d.get("k") == "Closure" and not d.get("params"):
+                dv = d["body"]
+            elif not lazy_d and pure_expr(n["args"][0]):
+                dv = n["args"][0]
+            else:
+                dv = None
+            if xv is not None and dv is not None and not _contains(xv, ("Ret", "Try", "Break", "Continue")) and not _contains(dv, ("Ret", "Try", "Break", "Continue")):
+                if n["method"].startswith("ok_or"):
+                    okc = {"k": "Call", "ty": n.get("ty"), "sp": xv.get("sp"), "res": "def", "dk": "Ctor(Variant, Fn)", "path": "std::prelude::v1::Ok", "args": [xv], "canon": "bool-then"}
+                    erc = {"k": "Call", "ty": n.get("ty"), "sp": dv.get("sp"), "res": "def", "dk": "Ctor(Variant, Fn)", "path": "std::prelude::v1::Err", "args": [dv], "canon": "bool-then"}
+                    xv, dv = okc, erc
+                return {"k": "If", "ty": n.get("ty"), "sp": n.get("sp"), "cond": r["recv"], "then": _as_block(xv), "else": _as_block(dv), "canon": "bool-then"}
+    if k == "Try":
+        e = n["e"]
+        # `(if c { Ok(a) } else { Err(e) })?` is `if c { a } else { return Err(e) }`
+        if e.get("k") == "If" and e.get("else") is not None and e.get("canon") == "bool-then":
+            t_, f_ = tir.strip(e["then"]), tir.strip(e["else"])
+            if t_.get("k") == "Call" and (t_.get("path") or "").endswith("::Ok") and f_.get("k") == "Call" and (f_.get("path") or "").endswith("::Err") and len(t_["args"]) == 1:
+                ret = {"k": "Ret", "ty": "!", "sp": f_.get("sp"), "e": f_, "canon": "bool-then"}
+                return {"k": "If", "ty": n.get("ty"), "sp": n.get("sp"), "cond": e["cond"], "then": _as_block(t_["args"][0]),
+                        "else": {"k": "Block", "ty": "!", "sp": f_.get("sp"), "stmts": [{"k": "Expr", "e": ret, "semi": True}], "tail": None}, "canon": "bool-then"}
+        # `opt.map_or(Ok(()), |x| BODY)?;` is `if let Some(x) = opt { BODY?; }`
+        if e.get("k") == "MethodCall" and e.get("method") == "map_or" and len(e.get("args", [])) == 2 and (e["recv"].get("ty") or "").startswith("std::option::Option<") and n.get("ty") == "()":
+            d, cl = tir.strip(e["args"][0]), tir.strip(e["args"][1])
+            unit_ok = d.get("k") == "Call" and (d.get("path") or "").endswith("::Ok") and len(d.get("args", [])) == 1 and tir.strip(d["args"][0]).get("k") == "Tup" and not tir.strip(d["args"][0]).get("elems")
+            if unit_ok and cl.get("k") == "Closure" and len(cl.get("params", [])) == 1 and not any(x.get("k") == "Ret" for x in _strip_closures(cl["body"])):
+                body = _as_block(cl["body"])
+                stmts = list(body.get("stmts", []))
+                if body.get("tail") is not None:
+                    # the new `tail?` may itself be one of the forms above (a nested map_or): spell it again
+                    stmts.append({"k": "Expr", "e": spell(spell({"k": "Try", "ty": "()", "sp": body["tail"].get("sp"), "e": body["tail"], "canon": "map_or-unit"})), "semi": True})
+                p = cl["params"][0]
+                pat = {"k": "TupleStruct", "ty": e["recv"].get("ty"), "sp": p.get("sp"), "path": "std::prelude::v1::Some", "pats": [p], "dd": None}
+                return {"k": "If", "ty": "()", "sp": n.get("sp"), "cond": {"k": "LetCond", "ty": "bool", "sp": e["recv"].get("sp"), "pat": pat, "init": e["recv"]},
+                        "then": {"k": "Block", "ty": "()", "sp": body.get("sp"), "stmts": stmts, "tail": None}, "canon": "map_or-unit"}
+    if k == "If" and n["cond"].get("k") == "LetCond" and not n.get("else") and (n.get("ty") or "()") == "()":
+        # `if let Some(P) = opt { if G { A } }` with pure opt and G, and A not using P, is `if opt.map_or(false, |P| G) { A }`
+        c = n["cond"]
+        p = c["pat"]
+        while p.get("k") == "Ref":
+            p = p["pat"]
+        th = n["then"]
+        inner = None
+        if th.get("k") == "Block" and not th.get("stmts") and isinstance(th.get("tail"), dict):
+            inner = th["tail"]
+        elif th.get("k") == "Block" and len(th.get("stmts", [])) == 1 and th.get("tail") is None and th["stmts"][0].get("k") == "Expr":
+            inner = th["stmts"][0]["e"]
+        if (inner is not None and inner.get("k") == "If" and inner["cond"].get("k") != "LetCond" and not inner.get("else")
+                and p.get("k") == "TupleStruct" and (p.get("path") or "").endswith("::Some") and len(p.get("pats", [])) == 1 and p["pats"][0].get("k") == "Bind" and not p["pats"][0].get("sub")
+                and (c["init"].get("ty") or "").startswith("std::option::Option<") and pure_expr(c["init"]) and pure_expr(inner["cond"])
+                and not any(x.get("k") == "Path" and x.get("id") == p["pats"][0].get("id") for x in tir.walk(inner["then"]))):
+            cl = {"k": "Closure", "ty": "{closure}", "sp": inner["cond"].get("sp"), "def": None, "params": [p["pats"][0]], "body": inner["cond"], "canon": "iflet-if"}
+            cond = {"k": "MethodCall", "ty": "bool", "sp": c.get("sp"), "method": "map_or", "path": "std::option::Option::<T>::map_or", "resolved": None, "local": False, "gargs": [],
+                    "recv": c["init"], "args": [{"k": "Lit", "lit": "bool", "v": False, "ty": "bool", "sp": c.get("sp")}, cl], "canon": "iflet-if"}
+            return {"k": "If", "ty": n.get("ty"), "sp": n.get("sp"), "cond": cond, "then": inner["then"], "canon": "iflet-if"}
+    if k == "Match" and n.get("src") == "Normal" and len(n.get("arms", [])) == 2 and not any(a.get("guard") for a in n["arms"]) and (n.get("ty") or "()") not in ("()", "!"):
+        # `match opt { Some(P) => A, None => return Err(E) }` with irrefutable P and A free of control flow is `opt.map(|P| A).ok_or_else(|| E)?`
+        some = none = None
+        for a in n["arms"]:
+            p = a["pat"]
+            while p.get("k") == "Ref":
+                p = p["pat"]
+            if p.get("k") == "TupleStruct" and (p.get("path") or "").endswith("::Some") and len(p.get("pats", [])) == 1:
+                some = (p["pats"][0], a["body"])
+            elif p.get("k") == "Wild" or (p.get("path") or (p.get("e") or {}).get("path") or "").endswith("::None"):
+                none = a["body"]
+        sty = n["scrut"].get("ty") or ""
+        if some is not None and none is not None and sty.startswith("std::option::Option<") and some[0].get("k") in ("Bind", "Wild") and not some[0].get("sub"):
+            nb = tir.strip(none)
+            if nb.get("k") == "Block" and len(nb.get("stmts", [])) == 1 and nb.get("tail") is None and nb["stmts"][0].get("k") == "Expr":
+                nb = tir.strip(nb["stmts"][0]["e"])
+            rv = tir.strip(nb.get("e") or {}) if nb.get("k") == "Ret" else None
+            if rv is not None and rv.get("k") == "Call" and (rv.get("path") or "").endswith("::Err") and len(rv.get("args", [])) == 1 and not _contains(some[1], ("Ret", "Try", "Break", "Continue")):
+                sb = tir.strip(some[1])
+                recv = n["scrut"]
+                if not (some[0].get("k") == "Bind" and sb.get("k") == "Path" and sb.get("res") == "local" and sb.get("id") == some[0].get("id")):
+                    cl = {"k": "Closure", "ty": "{closure}", "sp": some[1].get("sp"), "def": None, "params": [some[0]], "body": some[1], "canon": "match-or-err"}
+                    recv = {"k": "MethodCall", "ty": "std::option::Option<%s>" % n.get("ty"), "sp": n.get("sp"), "method": "map", "path": "std::option::Option::<T>::map", "resolved": None, "local": False,
+                            "gargs": [], "recv": n["scrut"], "args": [cl], "canon": "match-or-err"}
+                ecl = {"k": "Closure", "ty": "{closure}", "sp": rv.get("sp"), "def": None, "params": [], "body": rv["args"][0], "canon": "match-or-err"}
+                call = {"k": "MethodCall", "ty": "std::result::Result<%s, %s>" % (n.get("ty"), rv["args"][0].get("ty")), "sp": n.get("sp"), "method": "ok_or_else", "path": "std::option::Option::<T>::ok_or_else",
+                        "resolved": None, "local": False, "gargs": [], "recv": recv, "args": [ecl], "canon": "match-or-err"}
+                return {"k": "Try", "ty": n.get("ty"), "sp": n.get("sp"), "e": call, "canon": "match-or-err"}
     if k == "Match" and n.get("src") == "Normal" and n.get("ty") == "()" and len(n.get("arms", [])) == 2 and not any(a.get("guard") for a in n["arms"]):
         # a statement `match opt { Some(P) => A, None => {} }` is `if let Some(P) = opt { A }`
         some = none = None
@@ -275,6 +373,19 @@ def spell(n):
         init = c["init"]
         if init.get("k") == "MethodCall" and init.get("method") == "filter" and (init.get("path") or "").startswith("std::option::Option") and len(init.get("args", [])) == 1:
             cl = tir.strip(init["args"][0])
+            pin = c["pat"]
+            while pin.get("k") == "Ref":
+                pin = pin["pat"]
+            if (cl.get("k") == "Closure" and len(cl["params"]) == 1 and cl["params"][0].get("k") in ("Bind", "Ref") and pure_expr(cl["body"]) and pure_expr(init["recv"])
+                    and pin.get("k") == "TupleStruct" and (pin.get("path") or "").endswith("::Some") and len(pin.get("pats", [])) == 1 and pin["pats"][0].get("k") == "Wild"):
+                # `if let Some(_) = opt.filter(|q| G) { b }` is `if opt.map_or(false, |q| G) { b }`
+                q = cl["params"][0]
+                while q.get("k") == "Ref":
+                    q = q["pat"]
+                cl2 = {"k": "Closure", "ty": "{closure}", "sp": cl.get("sp"), "def": None, "params": [q], "body": cl["body"], "canon": "filter-some"}
+                cond = {"k": "MethodCall", "ty": "bool", "sp": c.get("sp"), "method": "map_or", "path": "std::option::Option::<T>::map_or", "resolved": None, "local": False, "gargs": [],
+                        "recv": init["recv"], "args": [{"k": "Lit", "lit": "bool", "v": False, "ty": "bool", "sp": c.get("sp")}, cl2], "canon": "filter-some"}
+                return {"k": "If", "ty": n.get("ty"), "sp": n.get("sp"), "cond": cond, "then": n["then"], "canon": "filter-some"}
             if cl.get("k") == "Closure" and len(cl["params"]) == 1 and cl["params"][0].get("k") == "Wild" and pure_expr(cl["body"]) and pure_expr(init["recv"]):
                 inner = dict(n)
                 inner["cond"] = dict(c)
@@ -358,14 +469,31 @@ def _simple_arg(a):
     return False
 
 
-def _fresh(tree, offset, subst):
-    """deep copy with binding ids shifted and parameter uses substituted"""
+def _fresh(tree, offset, subst, suffix=""):
+    """deep copy with binding ids shifted and parameter uses substituted; with a suffix the copy's own bindings are renamed
+    (the second and later copies of one helper inside one body: their locals must not be confused by name)"""
     t = copy.deepcopy(tree)
+    own = set()
+    if suffix:
+        for x in tir.walk(t):
+            ps = []
+            if x.get("k") in ("Let", "LetCond", "For"):
+                binding_pats(x.get("pat"), ps)
+            if x.get("k") == "Closure":
+                for p in x["params"]:
+                    binding_pats(p, ps)
+            if x.get("k") == "Match":
+                for arm in x["arms"]:
+                    binding_pats(arm["pat"], ps)
+            for q in ps:
+                own.add(q["id"])
 
     def shift_pat(p):
         out = []
         binding_pats(p, out)
         for q in out:
+            if suffix and q["id"] in own and isinstance(q.get("name"), str):
+                q["name"] = q["name"] + suffix
             q["id"] = q["id"] + offset
 
     def f(n):
@@ -382,6 +510,8 @@ def _fresh(tree, offset, subst):
             if n.get("id") in subst:
                 r = copy.deepcopy(subst[n["id"]])
                 return r
+            if suffix and n.get("id") in own and isinstance(n.get("name"), str):
+                n["name"] = n["name"] + suffix
             n["id"] = n["id"] + offset
         if k == "Call" and n.get("res") == "local" and n.get("id") is not None:
             if n["id"] in subst and tir.strip(subst[n["id"]]).get("k") == "Path":
@@ -495,11 +625,38 @@ def inline_helpers(doc, anchors):
         has_ret = any(x.get("k") == "Ret" for x in outer)
         ret_err_only = _ret_ok_only_err(ht["value"])
         sites = [0]
+        per_body = [0]
 
         def instantiate(body, call):
             """a generic helper: its type parameters are replaced by the use's instantiation in expression types and instantiations"""
             gen = fns.get(h, {}).get("generics") or []
             inst = [g for g in (call.get("gargs") or []) if isinstance(g, str) and not g.startswith("'")]
+            # const parameters (`fn f<const N: usize>() -> [u8; N]`): read off the call's own type against the declared output
+            import re as _re
+            out_ty = fns.get(h, {}).get("output") or ""
+            cps = sorted(set(_re.findall(r"; ([A-Z][A-Za-z0-9_]*)\]", out_ty)))
+            if cps and isinstance(call.get("ty"), str):
+                pat = _re.escape(out_ty)
+                for cp in cps:
+                    pat = pat.replace(_re.escape("; %s]" % cp), r"; (?P<%s>\d+)\]" % cp, 1).replace(_re.escape("; %s]" % cp), r"; (?P=%s)\]" % cp)
+                mm = _re.match("^" + pat + "$", call["ty"])
+                if mm:
+                    cmap = mm.groupdict()
+                    crx = _re.compile(r"\b(" + "|".join(_re.escape(c_) for c_ in cmap) + r")\b")
+
+                    def subc(x):
+                        if isinstance(x, dict):
+                            for key in ("ty", "aty", "fty"):
+                                if isinstance(x.get(key), str):
+                                    x[key] = crx.sub(lambda m_: cmap[m_.group(1)], x[key])
+                            if isinstance(x.get("gargs"), list):
+                                x["gargs"] = [crx.sub(lambda m_: cmap[m_.group(1)], g) if isinstance(g, str) else g for g in x["gargs"]]
+                            for v in x.values():
+                                subc(v)
+                        elif isinstance(x, list):
+                            for v in x:
+                                subc(v)
+                    subc(body)
             if not gen or len(inst) < len(gen):
                 return
             tymap = dict(zip(gen, inst[-len(gen):] if len(inst) > len(gen) else inst))
@@ -537,7 +694,11 @@ def inline_helpers(doc, anchors):
                     q = copy.deepcopy(p)
                     q["id"] = p["id"] + offset
                     lets.append({"k": "Let", "sp": call.get("sp"), "pat": q, "init": a, "canon": "param"})
-            body = _fresh(ht["value"], offset, subst)
+            per_body[0] += 1
+            body = _fresh(ht["value"], offset, subst, suffix="'%d" % per_body[0] if per_body[0] > 1 else "")
+            for x_ in tir.walk(body):
+                if x_.get("k") == "Let":
+                    x_["from_inline"] = True
             instantiate(body, call)
             if as_try:
                 # value of `helper(..)?`: the Ok payload of the tail; `?` and `return Err` inside keep their meaning in the caller
@@ -598,6 +759,7 @@ def inline_helpers(doc, anchors):
                 continue
             for b in bs:
                 mark_tails(b["tir"]["value"])
+                per_body[0] = 0
                 b["tir"]["value"] = rewrite(b["tir"]["value"], f)
                 clear_tails(b["tir"]["value"])
         for b in doc["bodies"]:
@@ -609,6 +771,7 @@ def inline_helpers(doc, anchors):
     for p, bs in bodies.items():
         for b in bs:
             flatten_blocks(b["tir"]["value"])
+            propagate_tuple_lets(b["tir"]["value"])
     # a helper none of whose uses is left is dead from the typed trees' point of view (its code now stands in its callers):
     # whole-crate scans (who-may-call, inventories) skip its own body so that nothing is counted twice
     left = set()
@@ -627,6 +790,85 @@ def inline_helpers(doc, anchors):
     return report
 
 
+def propagate_tuple_lets(root):
+    """`let x' = e1; let y' = e2; let (x, y) = (x', y');` with x', y' used nowhere else is `let x = e1; let y = e2;` (what is left
+    of an inlined helper that returned a tuple); `let x = x';` likewise for a single value"""
+    n = 0
+    uses = {}
+    for y in tir.walk(root):
+        if y.get("k") == "Path" and y.get("res") == "local":
+            uses[y.get("id")] = uses.get(y.get("id"), 0) + 1
+    for blk in list(tir.walk(root)):
+        if blk.get("k") != "Block":
+            continue
+        stmts = blk.get("stmts", [])
+        i = 0
+        while i < len(stmts):
+            s_ = stmts[i]
+            pairs = None
+            defs = {}
+            for j in range(i):
+                d = stmts[j]
+                if d.get("k") == "Let" and d["pat"].get("k") == "Bind" and not d.get("els") and d.get("from_inline"):
+                    defs[d["pat"]["id"]] = d
+            if s_.get("k") == "Let" and not s_.get("els") and s_.get("init") is not None:
+                p, init = s_["pat"], tir.strip(s_["init"])
+                if p.get("k") == "Tuple" and init.get("k") == "Tup" and len(p.get("pats", [])) == len(init["elems"]) and all(q.get("k") == "Bind" and not q.get("sub") for q in p["pats"]):
+                    elems = [tir.strip(e) for e in init["elems"]]
+                    if all(e.get("k") == "Path" and e.get("res") == "local" and e.get("id") in defs for e in elems) and len(set(e["id"] for e in elems)) == len(elems):
+                        if all(uses.get(e["id"]) == 1 for e in elems):
+                            pairs = list(zip(p["pats"], elems))
+                        else:
+                            # split `let (a, b) = (a', b');` into single lets (moves of distinct locals, in the same order)
+                            stmts[i:i + 1] = [{"k": "Let", "sp": s_.get("sp"), "mac": [], "pat": q, "init": e0, "els": None, "canon": "tuple-split"} for q, e0 in zip(p["pats"], init["elems"])]
+                            n += 1
+                            continue
+                elif p.get("k") == "Bind" and not p.get("sub") and init.get("k") == "Path" and init.get("res") == "local" and init.get("id") in defs:
+                    pairs = [(p, init)]
+            if pairs and all(e.get("k") == "Path" and e.get("res") == "local" and uses.get(e.get("id")) == 1 for _, e in pairs):
+                if all(e["id"] in defs for _, e in pairs) and len(set(e["id"] for _, e in pairs)) == len(pairs):
+                    for q, e in pairs:
+                        d = defs[e["id"]]
+                        newp = dict(q)
+                        if "Mut" in (d["pat"].get("mode") or "").replace("Not", "") and "Mut" not in (q.get("mode") or "").replace("Not", ""):
+                            newp["mode"] = d["pat"].get("mode")
+                        d["pat"] = newp
+                    del stmts[i]
+                    n += 1
+                    continue
+            i += 1
+    return n
+
+
+def _hoist_arg_block(stmt, out):
+    """`f(a, &{ S..; t }, b)?;` with an inlined block as an argument and only simple (effect-free) arguments before it:
+    S.. is evaluated right after those and before anything else of the call, so `S..; f(a, &t, b)?;` is the same"""
+    e = stmt.get("e") if stmt.get("k") == "Expr" else stmt.get("init")
+    while isinstance(e, dict) and e.get("k") == "Try":
+        e = e["e"]
+    if not isinstance(e, dict) or e.get("k") not in ("Call", "MethodCall"):
+        return False
+    args = ([("recv", None)] if e.get("k") == "MethodCall" else []) + [("args", i) for i in range(len(e.get("args", [])))]
+    for key, i in args:
+        a = e["recv"] if key == "recv" else e["args"][i]
+        holder, hk = (e, "recv") if key == "recv" else (e["args"], i)
+        inner = a
+        path = []
+        while isinstance(inner, dict) and inner.get("k") == "AddrOf":
+            path.append(inner)
+            inner = inner["e"]
+        if isinstance(inner, dict) and inner.get("k") == "Block" and inner.get("inlined") and inner.get("tail") is not None and inner.get("stmts"):
+            out.extend(inner["stmts"])
+            if path:
+                path[-1]["e"] = inner["tail"]
+            else:
+                holder[hk] = inner["tail"]
+            return True
+        if not _simple_arg(a):
+            return False
+    return False
+
+
 def flatten_blocks(root):
     """splice an inlined block that stands as a statement (or as a `let` initialiser) into the enclosing block"""
     for blk in list(tir.walk(root)):
@@ -642,6 +884,9 @@ def flatten_blocks(root):
                     out += inner.get("stmts", [])
                     if inner.get("tail") is not None:
                         out.append({"k": "Expr", "e": inner["tail"], "semi": True})
+                    changed = True
+                elif s.get("k") in ("Expr", "Let") and _hoist_arg_block(s, out):
+                    out.append(s)
                     changed = True
                 elif s.get("k") == "Let" and isinstance(s.get("init"), dict) and s["init"].get("k") == "Block" and s["init"].get("inlined") and s["init"].get("tail") is not None:
                     inner = s["init"]
@@ -971,8 +1216,13 @@ def align_and_inline(doc, anchors):
         else:
             pairs = align(pats, want) or []
         ren = {}
+        pinned_names = set((w_[0], w_[1]) for w_ in want)
         for i, j in pairs:
             p, w = pats[i], want[j]
+            if p.get("name") != w[0] and (p.get("name"), p.get("ty")) in pinned_names:
+                # the binding already carries a pinned name of its type (two same-typed bindings met in the other order,
+                # e.g. a scratch buffer declared before the value it fills): renaming would swap the two
+                continue
             if p.get("name") != w[0]:
                 ren[p["id"]] = (p["name"], w[0])
                 p["name"] = w[0]
@@ -1149,6 +1399,26 @@ def match_to_try(root):
         return {"k": "Block", "ty": m.get("ty"), "sp": m.get("sp"), "stmts": [first] + list(body.get("stmts", [])), "tail": body.get("tail"), "canon": "match-try"}
 
     for m in list(tir.walk(root)):
+        # in tail position `b.then(|| R).transpose()` (R a Result) is `if b { Ok(Some(R?)) } else { Ok(None) }`
+        if m.get("k") == "MethodCall" and m.get("method") == "transpose" and not m.get("args") and m.get("_tail") is not None and (m.get("ty") or "").startswith("std::result::Result<std::option::Option<"):
+            r = tir.strip(m["recv"])
+            if r.get("k") == "MethodCall" and r.get("method") == "then" and len(r.get("args", [])) == 1 and (r["recv"].get("ty") or "").lstrip("&") == "bool":
+                cl = tir.strip(r["args"][0])
+                if cl.get("k") == "Closure" and not cl.get("params") and not _contains(cl["body"], ("Ret", "Break", "Continue")):
+                    inner_ty = re.match(r"std::result::Result<(std::option::Option<(.*)>), ([^,]+)>$", m.get("ty") or "")
+                    pay = inner_ty.group(2) if inner_ty else "()"
+                    opt_ty = inner_ty.group(1) if inner_ty else "std::option::Option<()>"
+                    tr = {"k": "Try", "ty": pay, "sp": cl["body"].get("sp"), "e": cl["body"], "canon": "then-transpose"}
+                    some = {"k": "Call", "ty": opt_ty, "sp": m.get("sp"), "res": "def", "dk": "Ctor(Variant, Fn)", "path": "std::prelude::v1::Some", "args": [tr], "canon": "then-transpose"}
+                    ok1 = {"k": "Call", "ty": m.get("ty"), "sp": m.get("sp"), "res": "def", "dk": "Ctor(Variant, Fn)", "path": "std::prelude::v1::Ok", "args": [some], "canon": "then-transpose"}
+                    none = {"k": "Path", "ty": opt_ty, "sp": m.get("sp"), "res": "def", "dk": "Ctor(Variant, Const)", "path": "std::prelude::v1::None", "canon": "then-transpose"}
+                    ok2 = {"k": "Call", "ty": m.get("ty"), "sp": m.get("sp"), "res": "def", "dk": "Ctor(Variant, Fn)", "path": "std::prelude::v1::Ok", "args": [none], "canon": "then-transpose"}
+                    tl = m.get("_tail")
+                    new_node = {"k": "If", "ty": m.get("ty"), "sp": m.get("sp"), "cond": r["recv"], "then": _as_block(ok1), "else": _as_block(ok2), "canon": "then-transpose", "_tail": tl}
+                    m.clear()
+                    m.update(new_node)
+                    n_done += 1
+                    continue
         # in tail position `x.map_err(From::from)` (or `Error::from`, `Into::into`) is `Ok(x?)`
         if m.get("k") == "MethodCall" and m.get("method") == "map_err" and m.get("_tail") is not None and len(m.get("args", [])) == 1 \
                 and (m["recv"].get("ty") or "").startswith("std::result::Result<") and (m.get("ty") or "").startswith("std::result::Result<"):
@@ -1470,10 +1740,52 @@ def inline_new_consts(doc, pinned_consts):
 
 # ------------------------------------------------------------------------------------------------ entry point
 
+LOG_MACROS = ("trace", "debug", "info", "warn", "error", "log")
+DEBUG_ASSERTS = ("debug_assert", "debug_assert_eq", "debug_assert_ne")
+
+
+def drop_noop_statements(root):
+    """N: statements that compute nothing for the caller are removed from the typed tree: `debug_assert*!(..)` (absent from
+    release builds; see DESIGN section 7 on the panic scope) and `log` macro calls whose arguments neither propagate an error
+    nor write a place (`trace!("..", x)`); a log call containing `?` (the `info!` over serde_json in parse_metadata) is kept."""
+    n = 0
+    for blk in list(tir.walk(root)):
+        if blk.get("k") != "Block":
+            continue
+        keep = []
+        for s in blk.get("stmts", []):
+            e = s.get("e") if s.get("k") == "Expr" else None
+            drop = False
+            if isinstance(e, dict):
+                if tir.in_macro(e, *DEBUG_ASSERTS):
+                    drop = True
+                elif tir.in_macro(e, *LOG_MACROS) and any((m or "").endswith("log") for m in (e.get("mac") or [])) \
+                        and not _contains(e, ("Try", "Ret", "Assign", "AssignOp", "Break", "Continue")) \
+                        and not any(x.get("k") == "AddrOf" and x.get("mut") and not tir.in_macro(x, "format_args", "format") for x in tir.walk(e)):
+                    drop = True
+            if drop:
+                n += 1
+            else:
+                keep.append(s)
+        if len(keep) != len(blk.get("stmts", [])):
+            blk["stmts"] = keep
+        t = blk.get("tail")
+        if isinstance(t, dict) and tir.in_macro(t, *DEBUG_ASSERTS) and (t.get("ty") in ("()", None)):
+            blk["tail"] = None
+            n += 1
+    return n
+
+
 def canonicalise(doc):
     with open(os.path.join(VERIF, "rules", "anchors.json")) as fh:
         adoc = json.load(fh)
     anchors = adoc["fns"]
+    n_noop = 0
+    for b in doc["bodies"]:
+        if b.get("tir"):
+            n_noop += drop_noop_statements(b["tir"]["value"])
+    if n_noop:
+        doc["_noop_statements"] = n_noop
     kc = inline_new_consts(doc, set(adoc.get("consts", [])))
     if kc:
         doc["_inlined_consts"] = kc
